@@ -5,30 +5,97 @@ import os
 import re
 
 
-def generate(build_dir):
-    src = open(os.path.join(build_dir, "cutadapt", "parser.py")).read()
-    tree = ast.parse(src)
-    table = None
-    for node in ast.walk(tree):
-        if isinstance(node, ast.FunctionDef) and node.name == "parse_search_parameters":
-            for st in ast.walk(node):
-                if isinstance(st, ast.Assign) and getattr(st.targets[0], "id", None) == "allowed_parameters":
-                    table = ast.literal_eval(st.value)
-    assert isinstance(table, dict) and table, "allowed_parameters not found"
+CANDIDATES = ["e", "error_rate", "max_error_rate", "o", "max_errors", "min_overlap", "anywhere", "required", "optional", "indels", "noindels", "rightmost",
+              # not parameters (must be rejected): near misses and abbreviations that are not in the table
+              "overlap", "O", "E", "min_o", "noindel", "indel", "any", "right", "leftmost", "req", "opt", "name", "times", "errors", "max_error"]
 
-    def canon(k):
-        seen = set()
-        while table[k] is not None:
-            assert k not in seen
-            seen.add(k)
-            k = table[k]
-        return k
-    pairs = [(k, canon(k)) for k in table]
-    m = re.search(r"0 <= (?:\w+) <= (\d+)|> (\d+):", src[src.index("def expand_braces"):])
-    limit = int(m.group(1) or m.group(2))
+
+def probe_parameters():
+    """accepted parameter name -> canonical name, from the behaviour of parse_search_parameters"""
+    import importlib
+    psp = importlib.import_module("cutadapt.parser").parse_search_parameters
+    out = []
+    for k in CANDIDATES:
+        got = None
+        for form in (k, k + "=1"):
+            try:
+                r = psp(form)
+            except Exception:
+                continue
+            if len(r) == 1:
+                got = next(iter(r))
+                break
+        if got is not None:
+            # noindels / optional are stored under the positive name with value False
+            canon = {"indels": "noindels" if k.startswith("no") else "indels", "required": "optional" if k.startswith("opt") else "required"}.get(got, got)
+            out.append((k, canon))
+    return out
+
+
+def generate(build_dir):
+    import importlib
+    src = open(os.path.join(build_dir, "cutadapt", "parser.py")).read()
+    table = None
+    try:
+        tree = ast.parse(src)
+        for node in ast.walk(tree):
+            if isinstance(node, ast.FunctionDef) and node.name == "parse_search_parameters":
+                for st in ast.walk(node):
+                    if isinstance(st, ast.Assign) and getattr(st.targets[0], "id", None) == "allowed_parameters":
+                        table = ast.literal_eval(st.value)
+    except Exception:
+        table = None
+    probed = probe_parameters()
+    if isinstance(table, dict) and table:
+        def canon(k):
+            seen = set()
+            while table[k] is not None:
+                assert k not in seen
+                seen.add(k)
+                k = table[k]
+            return k
+        pairs = [(k, canon(k)) for k in table]
+        # cross-check: every candidate behaves as the table says
+        assert dict(probed) == {k: v for k, v in pairs if k in CANDIDATES}, ("allowed_parameters and behaviour disagree", probed, pairs)
+    else:
+        # the table is no longer where it was (harmless restructuring?): fall back on the behaviour
+        pairs = probed
+    # brace limit, probed: the largest n for which `A{n}` is accepted
+    eb = importlib.import_module("cutadapt.parser").expand_braces
+
+    def ok(n):
+        try:
+            return len(eb("A{%d}" % n)) == n
+        except ValueError:
+            return False
+    lo, hi = 0, 1
+    while ok(hi) and hi < 10 ** 7:
+        lo, hi = hi, hi * 2
+    while lo + 1 < hi:
+        mid = (lo + hi) // 2
+        lo, hi = (mid, hi) if ok(mid) else (lo, mid)
+    limit = lo
+    m = re.search(r"0 <= (?:\w+) <= (\d+)|> (\d+):", src[src.index("def expand_braces"):] if "def expand_braces" in src else "")
+    if m:
+        assert int(m.group(1) or m.group(2)) == limit, "brace limit: source text and behaviour disagree"
+    # IUPAC alphabet, probed: which upper-case letters a wildcard-enabled adapter accepts
+    A = importlib.import_module("cutadapt.adapters")
+    letters = []
+    for c in "ABCDEFGHIJKLMNOPQRSTUVWXYZ":
+        try:
+            A.BackAdapter("AC" + c + "GT", adapter_wildcards=True)
+            if c != "I":                 # inosine is rewritten to N before the check and is not part of the alphabet itself
+                letters.append(c)
+        except A.InvalidCharacter:
+            pass
+        except ValueError:
+            pass
+    iupac = "".join(letters)
     asrc = open(os.path.join(build_dir, "cutadapt", "adapters.py")).read()
     m = re.search(r'iupac = frozenset\("([A-Z]+)"\)', asrc)
-    iupac = m.group(1)
+    if m:
+        assert set(m.group(1)) == set(iupac), ("IUPAC alphabet: source text and behaviour disagree", m.group(1), iupac)
+        iupac = m.group(1)
     out = ["/-! GENERATED from parser.py / adapters.py by gen/gen_parsertables.py — do not edit. -/",
            "namespace Cutadapt.Generated", "",
            "/-- `allowed_parameters`: accepted parameter name ↦ the canonical name it is un-abbreviated to -/",
